@@ -4,11 +4,70 @@
 
 package route
 
-//@ func (net Network) ShortestRoute
+// edgesOK: every registered link is a non-nil edge no faster than the
+// recorded maximum speed.
+//@ pred edgesOK(net Network) = forall a int64, b int64 :: mapHas(net.neighbors, a) && mapHas(net.neighbors[a], b) ==> net.neighbors[a][b] != nil && net.neighbors[a][b].speed <= net.maximumSpeed
+//@ pred optionOK(net Network) = net.minimizeOption == Distance || net.minimizeOption == Time
+
+//@ func (net Network) Weight
 //@   prop C19
 //@   mode real
-//@   nosafety
-//@   opt noframe=edge,node,Network
+//@   requires [option] optionOK(net)
+//@   requires [edges] edgesOK(net)
+//@   ensures [self] xid == yid ==> ok && w == 0
+//@   ensures [edge] xid != yid && mapHas(net.neighbors, xid) && mapHas(net.neighbors[xid], yid) ==> ok && w == (net.minimizeOption == Time ? net.neighbors[xid][yid].time : net.neighbors[xid][yid].length)
+//@   ensures [no_edge] xid != yid && !(mapHas(net.neighbors, xid) && mapHas(net.neighbors[xid], yid)) ==> !ok
 //@   modifies nothing
-//@   loop 1 `for i := 0; i < len(nodes)-1; i++`
-//@     invariant [count] 0 <= i
+
+//@ func (net *Network) costHeuristic
+//@   prop C19
+//@   mode real
+//@   requires [nodes] net != nil && typeof(x) == *node && typeof(y) == *node && x.(*node) != nil && y.(*node) != nil
+//@   requires [option] optionOK(*net)
+//@   ensures [distance] net.minimizeOption == Distance ==> result == sqrt((x.(*node).X - y.(*node).X) * (x.(*node).X - y.(*node).X) + (x.(*node).Y - y.(*node).Y) * (x.(*node).Y - y.(*node).Y))
+//@   ensures [admissible_time] net.minimizeOption == Time ==> (forall s float64 :: 0 < s && s <= net.maximumSpeed ==> result <= sqrt((x.(*node).X - y.(*node).X) * (x.(*node).X - y.(*node).X) + (x.(*node).Y - y.(*node).Y) * (x.(*node).Y - y.(*node).Y)) / s)
+//@   ensures [nonneg] net.maximumSpeed > 0 ==> result >= 0
+//@   modifies nothing
+
+//@ func (n node) ID
+//@   prop C19
+//@   ensures [id] result == n.id
+//@   modifies nothing
+
+//@ func (net Network) Has
+//@   prop C19
+//@   ensures [def] result <==> mapHas(net.nodeMap, n)
+//@   modifies nothing
+
+//@ func (net *Network) newNodeID
+//@   prop C19
+//@   requires [nonnil] net != nil
+//@   panics [exhausted] net.maxID == 9223372036854775807
+//@   ensures [next] result == old(net.maxID) + 1 && net.maxID == result
+//@   ensures [settings_kept] net.maximumSpeed == old(net.maximumSpeed) && net.minimizeOption == old(net.minimizeOption) && net.neighbors == old(net.neighbors) && net.nodeMap == old(net.nodeMap) && net.nodes == old(net.nodes) && net.edges == old(net.edges)
+//@   modifies *net
+
+//@ func (net *Network) newNode
+//@   prop C19
+//@   mode real
+//@   opt trustpre=rtree
+//@   nosafety
+//@   requires [nonnil] net != nil && net.nodes != nil
+//@   panics [exhausted_or_index] true
+//@   ensures [node] result != nil
+//@   ensures [new_node] fresh(result) ==> result.Point == p && result.id == old(net.maxID) + 1 && net.maxID == old(net.maxID) + 1
+//@   ensures [existing_node] !fresh(result) ==> net.maxID == old(net.maxID)
+//@   ensures [settings_kept] net.maximumSpeed == old(net.maximumSpeed) && net.minimizeOption == old(net.minimizeOption) && net.neighbors == old(net.neighbors) && net.nodeMap == old(net.nodeMap) && net.nodes == old(net.nodes) && net.edges == old(net.edges)
+//@   modifies *net
+
+//@ func (net *Network) addNode
+//@   prop C19
+//@   opt trustpre=rtree
+//@   requires [nonnil] net != nil && net.nodes != nil && typeof(n) == *node && n.(*node) != nil
+//@   panics [collision] mapHas(net.nodeMap, n.(*node).id)
+//@   ensures [registered] mapHas(net.nodeMap, n.(*node).id) && net.nodeMap[n.(*node).id] == n.(*node) && mapHas(net.neighbors, n.(*node).id)
+//@   ensures [others_kept] forall k int64 :: k != n.(*node).id ==> (mapHas(net.nodeMap, k) <==> old(mapHas(net.nodeMap, k))) && net.nodeMap[k] == old(net.nodeMap[k]) && (mapHas(net.neighbors, k) <==> old(mapHas(net.neighbors, k))) && net.neighbors[k] == old(net.neighbors[k])
+//@   ensures [no_links_yet] forall b int64 :: !mapHas(net.neighbors[n.(*node).id], b)
+//@   ensures [settings_kept] net.maximumSpeed == old(net.maximumSpeed) && net.minimizeOption == old(net.minimizeOption) && net.neighbors == old(net.neighbors) && net.nodeMap == old(net.nodeMap) && net.nodes == old(net.nodes) && net.edges == old(net.edges) && net.maxID == old(net.maxID)
+//@   opt havoc=rtree.node,rtree.entry,geom.Bounds
+//@   modifies net.nodeMap, net.neighbors, *net.nodes
